@@ -4,6 +4,7 @@
 -/
 import TarsModel.Model.Selector
 import TarsModel.Proofs.WeightBuild
+import TarsModel.Proofs.WeightRotation
 import Mathlib.Data.List.Rotate
 
 namespace Tars.Sel
@@ -592,5 +593,48 @@ theorem step_select_random {v : Variant} {s : State} (hk : s.kind = .random) (c 
   · split <;> rfl
 
 theorem cacheOf_false (v : Variant) (eps : List Ep) : cacheOf v false eps = [] := by simp [cacheOf]
+
+/-! ### equal static weights: a window of `N` selections is a rotation of the set -/
+
+theorem range_filterMap_take {α : Type} (l : List α) : ∀ n, n ≤ l.length →
+    (List.range n).filterMap (l[·]?) = l.take n
+  | 0, _ => by simp
+  | n + 1, h => by
+    have ih := range_filterMap_take l n (by omega)
+    have hn : n < l.length := by omega
+    rw [List.range_succ, List.filterMap_append, ih, List.take_add_one]
+    simp [List.getElem?_eq_getElem hn]
+
+theorem range_filterMap_getElem {α : Type} (l : List α) : (List.range l.length).filterMap (l[·]?) = l := by
+  rw [range_filterMap_take l l.length (Nat.le_refl _), List.take_length]
+
+theorem pickAt_mod (σ : List Nat) (p m : Nat) : pickAt σ (p % (m * σ.length)) = pickAt σ p := by
+  unfold pickAt
+  rw [Nat.mod_mod_of_dvd p (Dvd.intro_left m rfl)]
+
+/-- selections at positions `a, a+1, …` through the cycle `k ↦ σ[k mod N]` of length `10·N` -/
+theorem equal_window (eps : List Ep) (σ : List Nat) (hσ : σ.Perm (List.range eps.length)) (hne : eps ≠ [])
+    (a : Nat) :
+    ∃ picked : List Ep,
+      (List.range eps.length).map
+          (fun j => pickCached eps ((List.range (10 * eps.length)).map (pickAt σ)) (a + j))
+        = picked.map Res.selected ∧ picked.Perm eps := by
+  have hlen : σ.length = eps.length := by simpa using hσ.length_eq
+  have hN : 0 < eps.length := List.length_pos_iff.2 hne
+  have hL : 0 < ((List.range (10 * eps.length)).map (pickAt σ)).length := by simp; omega
+  have hvalid : ∀ i ∈ σ.rotate a, i < eps.length := by
+    intro i hi
+    have := hσ.mem_iff.1 (List.mem_rotate.1 hi)
+    simpa using this
+  refine ⟨(σ.rotate a).filterMap (eps[·]?), ?_, ?_⟩
+  · rw [← map_pickIdx_valid eps _ hvalid, ← window_pickAt σ (by omega) a, hlen, List.map_map]
+    apply List.map_congr_left
+    intro j _
+    rw [pickCached_eq hL]
+    simp only [List.getElem_map, List.getElem_range, List.length_map, List.length_range, Function.comp]
+    rw [← hlen, pickAt_mod σ (a + j) 10]
+  · have h1 := ((List.rotate_perm σ a).trans hσ).filterMap (eps[·]?)
+    rw [range_filterMap_getElem] at h1
+    exact h1
 
 end Tars.Sel
